@@ -170,6 +170,10 @@ pub fn writer_direction(run: &Run, total: &mut SweepOut) {
         .into_iter()
         .filter(|c| match c {
             CaseDesc::Value { labels, .. } => labels.len() == 1,
+            // a literal CR in character data is a listed finding (the `cr` / `crlf` labels keep
+            // showing it): a conforming parser normalises it, so texts that combine CR with other
+            // fragments cannot be compared beyond that and are left to C02's own-reader round trip
+            CaseDesc::Text { frags } => !frags.iter().any(|f| crate::codec::TEXT_FRAGMENTS[*f as usize] == "\r"),
             _ => true,
         })
         .collect();
